@@ -1,6 +1,14 @@
-# C06: default message-buffer size of VariableSizeCommunicator (dune/common/parallel/variablesizecommunicator.hh:
-# `: maxBufferSize_(32768), interface_(&inf)` in the constructors without max_buffer_size)
+# C06: constants of dune/common/parallel/variablesizecommunicator.hh the model depends on:
+#  - default message-buffer size (`: maxBufferSize_(32768), interface_(&inf)` in the constructors without max_buffer_size)
+#  - the two message tags: fixedSize scalar (sendFixedSize) and size/data messages (SetupSendRequest/SetupRecvRequest);
+#    the model keeps the scalar on a separate channel (l_fs), which is sound only if the tags differ (theorem C06_tags_distinct)
 def lines(repo, read, find, report):
     src = read("dune/common/parallel/variablesizecommunicator.hh")
     n = find("c06_param_default_buffer", src, r"maxBufferSize_\(\s*(\d+)\s*\)", 32768)
-    return ["Definition c06_param_default_buffer : N := %d%%N." % n]
+    ts = find("c06_param_tag_size", src, r"MPI_Issend\(&\(iter->fixedSize\),\s*1,[^;]*?iter->rank\(\),\s*(\d+)\s*,", 933881)
+    td = find("c06_param_tag_data", src, r"MPI_Issend\(buffer,\s*size,[^;]*?tracker\.rank\(\),\s*(\d+)\s*,", 933399)
+    tr = find("c06_param_tag_data_recv", src, r"MPI_Irecv\(buffer,\s*buffer\.size\(\),[^;]*?tracker\.rank\(\),\s*(\d+)\s*,", 933399)
+    tsr = find("c06_param_tag_size_recv", src, r"MPI_Irecv\(&\(iter->fixedSize\),\s*1,[^;]*?iter->rank\(\),\s*(\d+)\s*,", 933881)
+    return ["Definition c06_param_default_buffer : N := %d%%N." % n,
+            "Definition c06_param_tag_size : N := %d%%N.  Definition c06_param_tag_size_recv : N := %d%%N." % (ts, tsr),
+            "Definition c06_param_tag_data : N := %d%%N.  Definition c06_param_tag_data_recv : N := %d%%N." % (td, tr)]
